@@ -289,7 +289,7 @@ class State:
         return out
 
     # -- canonical key (for de-duplication and loop fix-points)
-    def key(self, extra=None, ignore=()):
+    def key(self, extra=None, ignore=(), accum_before=0):
         mapping: Dict[int, int] = {}
         out: List = []
 
@@ -351,6 +351,8 @@ class State:
                 k = ('i', e.kind, (mapping[p] if p in mapping else skey(p)) if p else None,
                      (mapping[a] if a in mapping else skey(a)) if a else None, e.delta, e.slack, e.const,
                      (e.succ[0], (mapping[e.succ[1]] if e.succ[1] in mapping else skey(e.succ[1])) if e.succ[1] else None, e.succ[2]) if e.succ else None)
+            elif t is ListE and accum_before and e.kind == 'accum' and sym <= accum_before:
+                k = ('l', 'accum*', e.ordered, e.distinct, e.dirty)      # contents joined separately (union of templates)
             elif t is ListE:
                 k = ('l', e.kind, e.lo, e.hi, skey(e.parent) if e.parent else None, e.tag,
                      tuple([vkey(x) for x in e.items]), skey(e.src) if e.src else None, e.ordered, e.spec, e.distinct, e.dirty)
